@@ -3907,6 +3907,17 @@ class OptionalNode(ActionSinkNode):
         if sub_dfa.starting_state in sub_dfa.accepting_states:
             raise IllegalDFAStateError("Ambigious path in optional: should use optional or go to next", sub_dfa.starting_state)
 
+        if any(True for _ in sub_dfa.transitions_pointing_to(sub_dfa.starting_state)):
+            # The contents come back to their own first state (they start with a loop): entering the optional needs a state
+            # of its own, otherwise the optional could be left (skipped) again after any iteration.
+            entry_dfa = DFA()
+            entry_state = DFState()
+            entry_dfa.add(entry_state)
+            entry_dfa.starting_state = entry_state
+            entry_dfa.mark_accepting(entry_state)
+            entry_dfa.append_after(sub_dfa)
+            sub_dfa = entry_dfa
+
         sub_dfa.mark_accepting(sub_dfa.starting_state)
 
         # Add starting actions
